@@ -205,14 +205,14 @@ func (i Int64) BitwiseXor(other Value) (Int64, Value) {
 
 func (i Int64) LeftBitshiftInt64(other Int64) Int64 {
 	if other < 0 {
-		return i >> -other
+		return i >> uint64(-other)
 	}
 	return i << other
 }
 
 func (i Int64) RightBitshiftInt64(other Int64) Int64 {
 	if other < 0 {
-		return i << -other
+		return i << uint64(-other)
 	}
 	return i >> other
 }
